@@ -245,10 +245,34 @@ func (v *Vue) RenderFragment(w io.Writer, filename string, data any) error {
 }
 
 func (v *Vue) render(w io.Writer, nodes []*html.Node) error {
+	ew := &errWriter{w: w}
 	for _, node := range nodes {
-		if err := renderNode(w, node, 0); err != nil {
+		if err := renderNode(ew, node, 0); err != nil {
 			return err
+		}
+		if ew.err != nil {
+			return ew.err
 		}
 	}
 	return nil
+}
+
+// errWriter remembers the first error of the underlying writer, so that
+// the serialiser (which does not check individual writes) can report it.
+// After a failed write, no further writes are attempted.
+type errWriter struct {
+	w   io.Writer
+	err error
+}
+
+func (e *errWriter) Write(p []byte) (int, error) {
+	if e.err != nil {
+		return 0, e.err
+	}
+	n, err := e.w.Write(p)
+	if err == nil && n < len(p) {
+		err = io.ErrShortWrite
+	}
+	e.err = err
+	return n, err
 }
